@@ -81,7 +81,7 @@ func c03ClassesOK(secretIdx []int, labels []string) bool {
 func c03Run(t *testing.T, sub string, keys []string, maxLen int, qb, tb time.Duration) {
 	r := vkit.Start(t, "C03", sub, qb, tb)
 	defer r.Finish()
-	r.Rule = "lists of 2..N builders (disclosure/issuance alternating over the given keys) x every assignment of secrets from {s1,s2,s3} x every labelling (nil + every set partition); per list the honest proofs plus every equaliser (ProofU m_user_responses[0] carrying the difference; ProofD a_disclosed[0]/split of attribute 0; a_responses[0] or s_response overwritten with the other member's response; both shifted by k*ord) applied to every non-first member; non-trivial = list with >=2 distinct secrets inside one label class or an equaliser applied; oracle: accepted => one secret per label class; honest single-secret classes => accepted (reported as vacuity if not)"
+	r.Rule = "lists of 2..N builders (disclosure/issuance alternating over the given keys) x every assignment of secrets from {s1,s2,s3} x every labelling (nil + every set partition); per list the honest proofs plus every equaliser (ProofU m_user_responses[0] carrying the difference or the whole true response; ProofD a_disclosed[0]/split of attribute 0; a_responses[0] or s_response overwritten with the other member's response; both shifted by k*ord) applied to every non-first member; non-trivial = list with >=2 distinct secrets inside one label class or an equaliser applied; oracle: accepted => one secret per label class; honest single-secret classes => accepted (reported as vacuity if not)"
 	vfInstallEnv(t, "C03/"+sub, r.Seed)
 	secrets := []*big.Int{vfTag("c03-s1"), vfTag("c03-s2"), new(big.Int).Add(vfTag("c03-s1"), vfInt(1))}
 	r.Bounds["max_list_len"] = maxLen
@@ -178,7 +178,7 @@ func c03Run(t *testing.T, sub string, keys []string, maxLen int, qb, tb time.Dur
 				resp := func(p Proof) *big.Int { return p.SecretKeyResponse() }
 				for j := 1; j < n; j++ {
 					target := resp(L[0])
-					for _, variant := range []string{"overwrite", "carry-difference", "disclose-0", "split-0"} {
+					for _, variant := range []string{"overwrite", "carry-difference", "carry-whole", "disclose-0", "split-0"} {
 						alt := vsCloneList(L)
 						switch q := alt[j].(type) {
 						case *ProofU:
@@ -195,6 +195,14 @@ func c03Run(t *testing.T, sub string, keys []string, maxLen int, qb, tb time.Dur
 									continue
 								}
 								q.MUserResponses[0] = diff
+								q.SResponse = vfCopy(target)
+							case "carry-whole":
+								// the true response moved to a second entry for the secret-key base, the field the
+								// linking check looks at overwritten with the other member's response
+								if q.MUserResponses == nil {
+									q.MUserResponses = map[int]*big.Int{}
+								}
+								q.MUserResponses[0] = vfCopy(q.SResponse)
 								q.SResponse = vfCopy(target)
 							default:
 								continue
